@@ -83,12 +83,23 @@ def main(tier, replay=None):
             f = line.split(" ")
             case_by_key[f[0] + " " + f[1]] = line
 
+    # --- a case on which the code under test (or the harness around it) panicked / failed an unwrap:
+    #     the harness prints "<kind> <id> !panic <message>" for it instead of a trace
+    panicked = [key for key in case_by_key if len(impl.get(key, "").split(" ")) > 2 and impl[key].split(" ")[2] == "!panic"]
+    for key in sorted(panicked, key=lambda k: len(case_by_key[k]))[:2]:
+        c.violation("impl-panic", "\n".join([
+            "the implementation (or the harness driving it) panicked on this C12 schedule; the model answers it:",
+            "case: " + case_by_key[key][:4000],
+            "implementation: " + impl[key],
+            "model trace   : " + str(model.get(key))[:4000],
+            "replay: bin/check C12 quick --replay <this file>"]))
+
     # --- monitor: the extracted executable property on the implementation's own traces
     spec_in = os.path.join(rd, "spec.in")
     n_mon = 0
     with open(spec_in, "w") as f:
         for key in case_by_key:
-            if key[0] in "GXEK" and key[1] == " " and key in impl:
+            if key[0] in "GXEK" and key[1] == " " and key in impl and key not in panicked:
                 # check-in: the one-lap hypothesis is about the schedule, so the ops go along
                 tail = " # " + case_by_key[key].split(" ")[5] if key[0] == "K" else ""
                 f.write(impl[key] + tail + "\n")
@@ -97,7 +108,7 @@ def main(tier, replay=None):
     if n_mon:
         spec_out = c.run_sharded([driver, "<"], spec_in, os.path.join(rd, "spec.out"), argv_suffix=["spec"])
         spec = read_keyed(spec_out)
-    mon_viol, mon_checked, mon_skipped, mon_lap = 0, 0, 0, 0
+    mon_viol, mon_checked, mon_skipped, mon_lap, mon_unparsed = 0, 0, 0, 0, 0
     by_len = sorted(spec.items(), key=lambda kv: len(case_by_key.get(kv[0], "")))
     reported = {}
     for key, sl in by_len:
@@ -107,6 +118,9 @@ def main(tier, replay=None):
             continue
         if verdict == "lap":
             mon_lap += 1
+            continue
+        if verdict == "?":
+            mon_unparsed += 1
             continue
         mon_checked += 1
         if verdict != "1":
@@ -182,6 +196,8 @@ def main(tier, replay=None):
         "monitor_cases": mon_checked,
         "monitor_skipped_not_obedient": mon_skipped,
         "monitor_skipped_beyond_one_lap": mon_lap,
+        "monitor_unparsable_impl_lines": mon_unparsed,
+        "impl_panics": len(panicked),
         "monitor_violations": mon_viol,
         "disagreements_checked": len(diffs),
         "exhaustive": False,
